@@ -136,13 +136,19 @@ def channelSeedBase (P : Prims) (seed : Bytes) : Bytes := P.hkdf32 seed infoPeer
 def keysIdOf (P : Prims) (style : Style) (base id : Bytes) : Bytes :=
   applyMask (maskOf style) (P.hkdf32 base infoPerPeerSeed id)
 
-/-- `get_channel_keys_with_id(channel_id, _)`: the key material handed to `InMemorySigner::new`.
-`st` is the manager state *before* the call (its `lnd_basepoint_index` is what `fetch_add` returns). -/
-def channelKeys (P : Prims) (style : Style) (seed : Bytes) (net : Net) (id : Bytes) (st : KMState) :
-    KeyMaterial :=
-  let keysId := keysIdOf P style (channelSeedBase P seed) id
+/-- `get_channel_keys_with_keys_id(keys_id, _)` (also `derive_channel_keys`, which
+`spend_spendable_outputs` calls with the `channel_keys_id` of a descriptor): the key material handed
+to `InMemorySigner::new`, derived from a keys id.  `st` is the manager state *before* the call (its
+`lnd_basepoint_index` is what `fetch_add` returns). -/
+def channelKeysFromKeysId (P : Prims) (style : Style) (seed : Bytes) (net : Net) (keysId : Bytes)
+    (st : KMState) : KeyMaterial :=
   let s := P.chanKeys style (maskIn (useOf style) ⟨seed, net, keysId, st.lndBasepointIndex⟩)
   ⟨keysId, s.funding, s.revocation, s.htlc, s.payment, s.delayed, s.commitmentSeed⟩
+
+/-- `get_channel_keys_with_id(channel_id, _)`: `keys_id` from the channel id, then the above -/
+def channelKeys (P : Prims) (style : Style) (seed : Bytes) (net : Net) (id : Bytes) (st : KMState) :
+    KeyMaterial :=
+  channelKeysFromKeysId P style seed net (keysIdOf P style (channelSeedBase P seed) id) st
 
 /-- the counters after one `get_channel_keys_with_keys_id` (`fetch_add` on a `u32` wraps) -/
 def KMState.afterDerive (st : KMState) : KMState :=
@@ -244,6 +250,9 @@ inductive Op
   | advance (id : Bytes)
   /-- any other consumer of the manager's entropy counter (`get_secure_random_bytes`) -/
   | entropy
+  /-- `spend_spendable_outputs` for a channel-derived descriptor: one more signer derivation
+  (advances the manager's counters), no channel changes -/
+  | sweep
   /-- process restart: fresh `MyKeysManager`, every persisted channel re-derived from its id0 -/
   | restart
   /-- a fresh node on the same seed with an empty store -/
@@ -286,6 +295,7 @@ def step (P : Prims) (style : Style) (seed : Bytes) (net : Net) (s : NodeSt) : O
   | .advance id =>
     { s with chans := updChan s.chans id (fun c => if c.ready then { c with nextHolder := c.nextHolder + 1 } else c) }
   | .entropy => { s with km := { s.km with randBytesChildIndex := s.km.randBytesChildIndex + 1 } }
+  | .sweep => { s with km := s.km.afterDerive }
   | .restart =>
     let (km, cs) := restoreChans P style seed net KMState.fresh s.chans
     ⟨km, cs⟩
@@ -340,5 +350,17 @@ def oldGetPointReply (H : Bytes → Bytes) (c : Chan) (n : Nat) : Option (Option
   else if n < 2 then some (holderSecret H c.keys n, none)
   else if secretReleasable c (n - 2) then some (holderSecret H c.keys n, holderSecret H c.keys (n - 2))
   else none
+
+/-- the signer `spend_spendable_outputs` builds for a Static/DelayedPaymentOutput descriptor of a
+channel: `derive_channel_keys(value, descriptor.channel_keys_id)`, where the descriptor carries the
+keys id the channel's signer recorded; `st` is whatever the manager's counters are at sweep time -/
+def sweepSigner (P : Prims) (style : Style) (seed : Bytes) (net : Net) (c : Chan) (st : KMState) :
+    KeyMaterial :=
+  channelKeysFromKeysId P style seed net c.keys.keysId st
+
+/-- `ChannelBase::check_future_secret(n, suggested)` (stub and channel alike): is `suggested` the
+channel's per-commitment secret `n`?  No guard on the channel's progress. -/
+def checkFutureSecret (H : Bytes → Bytes) (c : Chan) (n : Nat) (suggested : Bytes) : Bool :=
+  holderSecret H c.keys n == some suggested
 
 end VlsModel.Keys
